@@ -55,6 +55,7 @@ def sh(cmd, timeout=600, cwd=None, env=None, input=None, check=False):
 
 
 _LOCK_DEPTH = {}
+_COQ_LOCK = None     # set by private_coq_dir(): name of the lock guarding this run's private Coq directory
 
 
 @contextlib.contextmanager
@@ -62,6 +63,8 @@ def locked(name):
     """Inter-process lock (flock), re-entrant within this process: a caller that already holds
     the lock (e.g. the Coq stage, which keeps it across parameter regeneration, make and coqc so
     that no other run can rebuild a shared .vo in between) may call helpers that take it again."""
+    if name == "coq" and _COQ_LOCK:
+        name = _COQ_LOCK
     if _LOCK_DEPTH.get(name, 0) > 0:
         _LOCK_DEPTH[name] += 1
         try:
@@ -82,6 +85,22 @@ def locked(name):
 
 
 # --------------------------------------------------------------------------- Coq
+
+def private_coq_dir(ctx):
+    """Runs against a tree other than /repo (mutants, seeded changes, refactorings, scratch worktrees)
+    get a private copy of the Coq development (sources and compiled files) in their own build
+    directory: the constants regenerated from that tree (Params_gen.v and the per-property generated
+    files) and everything recompiled against them stay there, so a concurrent or later run against
+    /repo never sees constants of a foreign tree, and vice versa."""
+    global COQ, _COQ_LOCK
+    priv = os.path.join(ctx.build, "coq")
+    os.makedirs(priv, exist_ok=True)
+    with locked("coq"):          # consistent snapshot of the shared directory
+        sh(["rsync", "-a", "--delete", os.path.join(VERIF, "coq") + "/", priv + "/"], check=True)
+    COQ = priv
+    _COQ_LOCK = "coq-" + os.path.basename(ctx.build)
+    os.environ["VERIF_COQ_DIR"] = priv
+
 
 def coq_project():
     """(Re)generate coq/_CoqProject and coq/Makefile when the set of .v files changed."""
@@ -467,6 +486,8 @@ def main(argv):
     ap.add_argument("--seed", type=int, default=int(os.environ.get("VERIF_SEED", "1") or 1))
     a = ap.parse_args(argv)
     ctx = Ctx(a.prop, a.tier, a.seed, a.repo)
+    if ctx.repo != "/repo":
+        private_coq_dir(ctx)
     spec = importlib.util.spec_from_file_location("check_" + a.prop, os.path.join(VERIF, "checks", a.prop + ".py"))
     mod = importlib.util.module_from_spec(spec)
     spec.loader.exec_module(mod)
